@@ -19,9 +19,10 @@ const (
 	RelLate                 // different buckets, the other keys in the last buckets a resize copies
 	RelZeroSD               // same bucket, different tags, key 0 has the all-zero tag (top hash 0 / h2 0)
 	RelZeroDD               // different buckets, every alphabet key has the all-zero tag
+	RelMaxSD                // same bucket, tags at the top of the tag range (all ones, all ones - 1, ...)
 )
 
-var relNames = [...]string{"sameBucketSameTag", "sameBucketDiffTag", "diffBuckets", "splitOnGrow", "lateBuckets", "sameBucketZeroTag", "diffBucketsZeroTag"}
+var relNames = [...]string{"sameBucketSameTag", "sameBucketDiffTag", "diffBuckets", "splitOnGrow", "lateBuckets", "sameBucketZeroTag", "diffBucketsZeroTag", "sameBucketMaxTags"}
 
 type TableCond int
 
@@ -80,6 +81,8 @@ func layoutFor(rel KeyRel) Layout {
 				if k == 0 {
 					return 0
 				}
+			case RelMaxSD:
+				return 0xfffff - uint64(k)
 			}
 			return 5 + uint64(k)
 		},
